@@ -226,6 +226,13 @@ def fields(ctx: Ctx, rule="R-C13-FIELDS") -> None:
     ctx.check(dotted(C.kw(rc[0], "id_")) == "self.result_id" and dotted(C.kw(rc[0], "ttl")) == "self.result_ttl", rule, cp,
               "RESULT_CLASS(id_=self.result_id, ttl=self.result_ttl)", "the id Job.result reads, the configured ttl",
               f"Job._construct_parameters builds result settings {unparse(rc[0])[:100]}", node=rc[0], instance="job result settings")
+    ji = ctx.func("repid.job.Job.__init__")
+    for attr in ("result_ttl", "result_id", "store_result"):
+        st = [n for n in ast.walk(ji.node) if isinstance(n, ast.Assign) and any(dotted(t) == f"self.{attr}" for t in n.targets)]
+        want = {"result_ttl": ["result_ttl"], "result_id": ["result_id if isinstance(result_id, str) else uuid.uuid4().hex"],
+                "store_result": ["self._conn.results_bucket_broker is not None if store_result is None else store_result"]}[attr]
+        ctx.check(len(st) == 1 and unparse(st[0].value) in want, rule, ji, f"Job keeps {attr} as configured", want[0],
+                  f"Job.__init__ stores {attr} = {unparse(st[0].value) if st else '?'}: the configured value (e.g. an explicit None = keep forever) is replaced", instance=f"Job.{attr}")
     # ... only when store_result
     par = [n for n in ast.walk(cp.node) if isinstance(n, ast.IfExp) and any(x is rc[0] for x in ast.walk(n.body))]
     ok = len(par) == 1 and dotted(par[0].test) == "self.store_result" and C.is_const(par[0].orelse, None)
